@@ -41,8 +41,8 @@ def render_tr(v, rng, plain=False):
 
 
 # --- sections ---------------------------------------------------------------
-THRU = [" - ", "-", " – ", " through ", " thru ", " to "]
-AND = [", ", " and ", " & ", ", and "]
+THRU = [" - ", "-", " – ", " through ", " thru ", " to ", " Through ", " THRU ", " To "]
+AND = [", ", " and ", " & ", ", and ", " And ", " AND "]
 SEC_WORDS = [("Sec", "Secs"), ("Sec.", "Secs."), ("Section", "Sections"), ("Sect.", "Sects."), ("§", "§")]
 
 
@@ -66,6 +66,8 @@ BLOCKS = [
     "SE/4SE/4, less and except the wellbore of the Smith #1", "E/2, limited to depths above 9,000 feet",
     "A tract of land described by metes and bounds, returning to the point of beginning.",
     "Lot 2, Block 7, Smith Add.", "N/2NW/4 (80.00 acres)", "W/2 E/2",
+    "All that part lying within the Williston Basin", "The lands conveyed by the deed aforesaid",
+    "NE/4, and the mineral rights therein", "S/2 and all appurtenances thereof",
 ]
 
 # --- foreign marker words (match none of the library's patterns) ------------
